@@ -1404,6 +1404,13 @@ func (fc *FuncCtx) havocExternal(st *State, c *ssa.CallCommon) {
 		fc.bumpAlloc(st)
 		return
 	}
+	for _, a := range c.Args {
+		if fn := fc.eng.repoFuncValue(a); fn != nil {
+			// the dependency may call this function of ours any number of times
+			fc.applyModSet(st, fc.eng.funcModSet(fn))
+			fc.u.Assumptions["a function value handed to a dependency is called by it only during that call (no retained callback)"] = true
+		}
+	}
 	match := func(key string) bool {
 		switch {
 		case strings.HasPrefix(key, "O!"):
